@@ -463,8 +463,10 @@ inline void orientedPin(int o, int w, int h, int px, int py, long long &ox, long
   ph = maxy - miny;
 }
 
-inline long long refHpwl(const Circuit &c, bool skipSinglePin = false) {
+inline long long refHpwl(const Circuit &c, bool skipSinglePin = false, long long *xPart = nullptr, long long *yPart = nullptr) {
   long long tot = 0;
+  if (xPart) *xPart = 0;
+  if (yPart) *yPart = 0;
   for (int n = 0; n + 1 < (int)c.netLimits_.size(); ++n) {
     int b = c.netLimits_[n], e = c.netLimits_[n + 1];
     if (e <= b) continue;
@@ -480,6 +482,8 @@ inline long long refHpwl(const Circuit &c, bool skipSinglePin = false) {
       miny = std::min(miny, Y); maxy = std::max(maxy, Y);
     }
     tot += (maxx - minx) + (maxy - miny);
+    if (xPart) *xPart += maxx - minx;
+    if (yPart) *yPart += maxy - miny;
   }
   return tot;
 }
